@@ -307,6 +307,25 @@ impl Engine for RecSim {
                     Ok(None) => {}
                 }
             }
+            // ... and the once-only definition over the TYPE of the first definition
+            for _ in 0..2 {
+                let kind = rng.below(crate::rectypes::N_DEF_KINDS as u64) as u8;
+                let (via_clone, use_between) = (rng.chance(1, 2), rng.chance(1, 2));
+                acc.inc(&format!("replica_runs.define_twice.{}", crate::rectypes::DEF_KIND_NAMES[kind as usize]));
+                d = fold(d, (kind as u64) << 2 | (via_clone as u64) << 1 | use_between as u64);
+                if let Some((class, exp, obs)) = crate::rectypes::define_twice_check(kind, via_clone, use_between) {
+                    acc.violations.push(Violation {
+                        property: "C12".into(),
+                        engine: "recsim".into(),
+                        seed,
+                        case: idx,
+                        class: class.clone(),
+                        summary: format!("{} first definition: {} via_clone={} used_between={} expected={} observed={}", class, crate::rectypes::DEF_KIND_NAMES[kind as usize], via_clone, use_between, exp, obs),
+                        replay: json!({"engine": "recsim", "property": "C12", "seed": seed, "case": idx, "class": class, "define_twice": {"kind": kind, "kind_name": crate::rectypes::DEF_KIND_NAMES[kind as usize], "via_clone": via_clone, "use_between": use_between}, "expected": exp, "observed": obs}),
+                    });
+                    return d;
+                }
+            }
             acc.distinct("cases", d);
             acc.distinct("nontrivial_cases", d);
             return d;
